@@ -24,7 +24,7 @@ var TagBoundaries = []int32{15, 16, 2047, 2048, 262143, 262144, 33554431, 335544
 // MX builds the matrix schema: mxo/other.proto (another Go package), mx/mx2.proto and mx/mx.proto (same Go package).
 func MX() []*descriptorpb.FileDescriptorProto {
 	// --- other package
-	o := NewFile("mxo/other.proto", "mxo", GenRoot+"mxo")
+	o := NewFile("mxo/other.proto", "mxo", GenRoot+"mxo;mxopkg") // go_package in its path;name form
 	oe := o.Enum("OtherEnum", "OTHER_ZERO", 0, "OTHER_ONE", 1, "OTHER_NEG", -2, "OTHER_MAX", 2147483647, "OTHER_MIN", -2147483648)
 	other := o.Msg("Other")
 	other.Field("v", 1, S(Int32))
@@ -297,6 +297,23 @@ func valName(v Ty) string {
 		out = append(out, c)
 	}
 	return string(out)
+}
+
+// MXR builds package mxr: a proto3 message that reaches a proto2 message with REQUIRED fields
+// (google.protobuf.UninterpretedOption.NamePart) in every position. Used by C10 only: values with an unset required
+// field are legitimately rejected by Marshal, which the other value-space oracles do not expect.
+func MXR() []*descriptorpb.FileDescriptorProto {
+	f := NewFile("mxr/req.proto", "mxr", GenRoot+"mxr", "google/protobuf/descriptor.proto")
+	np := ".google.protobuf.UninterpretedOption.NamePart"
+	r := f.Msg("Req")
+	r.Field("np", 1, M(np))
+	r.Rep("nps", 2, M(np))
+	r.Map("by", 3, String, M(np))
+	r.OneofField("o", "onp", 4, M(np))
+	r.OneofField("o", "os", 5, S(String))
+	r.Field("child", 6, M(r.Full()))
+	r.Field("plain", 7, S(Int32))
+	return []*descriptorpb.FileDescriptorProto{f.P}
 }
 
 // MXAll builds package mxall: one message with all 12 x 17 map key/value kind pairs (thorough tier).
